@@ -354,6 +354,52 @@ def gen_chain(rng, lang, opts):
     return line
 
 
+def gen_joinbox(rng, lang, opts):
+    """boundary shape: two values given by bounds (boxes, points) and/or one relation each are
+    joined; the join must keep every relation that each side implies, be it through an explicit
+    edge or only through its bounds; then the result is queried on every pair and met again"""
+    nv = rng.randint(2, min(3, max(2, opts.get("maxvars", 5))))
+    ref = Ref(lang, nv)
+    regs = [ref.top(), ref.top(), ref.top()]
+    ops = []
+    for r in (0, 1):
+        cs = []
+        for v in range(nv):
+            if rng.random() < 0.8:
+                lo = rng.choice([0, 1, -1, 2, 5, -5, 10]); hi = lo + rng.choice([0, 0, 1, 2, 5])
+                cs.append(("le", ([(-1, v)], lo))); cs.append(("le", ([(1, v)], -hi)))
+        if rng.random() < 0.6:
+            x, y = rng.sample(range(nv), 2)
+            sx, sy = (rng.choice([1, -1]), rng.choice([1, -1])) if (lang == "oct" and rng.random() < 0.5) else (1, -1)
+            ts = sorted([(sx, x), (sy, y)], key=lambda t: t[1])
+            cs.append((rng.choice(["le", "eq"]), (ts, rng.choice([0, 1, -1, 2, -3, 5]))))
+        rng.shuffle(cs)
+        for i in range(0, len(cs), 2):
+            part = cs[i:i + 2]
+            ops.append("assume %d %d %s" % (r, len(part), " ".join(map(fmt_cst, part))))
+            regs[r] = ref.add(regs[r], part)
+    a, b = rng.sample([0, 1], 2)
+    ops.append("join 2 %d %d" % (a, b))
+    regs[2] = ref.join(regs[a], regs[b])
+    if regs[2] is not None:
+        sh = shapes(lang, nv)
+        rng.shuffle(sh)
+        for terms in sh[:8]:
+            k = ref.tight(regs[2], terms)
+            if k is None:
+                ops.append("q_entails 2 %s" % fmt_cst(("le", (terms, -(2 ** 41)))))
+            else:
+                ops.append("q_entails 2 %s" % fmt_cst(("le", (terms, -k))))
+                ops.append("q_entails 2 %s" % fmt_cst(("le", (terms, -(k - 1)))))
+    ops.append("q_leq 0 2"); ops.append("q_leq 2 %d" % rng.choice([0, 1]))
+    if "meet" in opts.get("ops", ["meet"]):
+        ops.append("meet 2 2 %d" % rng.choice([0, 1]))
+    line = "hist 3 %d ; %s" % (nv, " ; ".join(ops))
+    if opts.get("params"):
+        line = "P %s %s" % ("".join(rng.choice("01") for _ in range(4)), line)
+    return line
+
+
 # hand-picked cases (always first)
 CORPUS = {
     "zone": [
@@ -439,6 +485,9 @@ def gen(seed, tier, lang, n=None, opts=None):
         o = dict(opts)
         if i % 3 == 0 and lang != "interval" and "assume" in opts.get("ops", ["assume"]):
             lines.append(gen_chain(rng, lang, o))
+            continue
+        if i % 3 == 1 and lang != "interval" and "join" in opts.get("ops", ["join"]):
+            lines.append(gen_joinbox(rng, lang, o))
             continue
         o.update(ks=KS_SMALL, maxvars=min(3, opts.get("maxvars", 5)), minops=4, maxops=14, maxq=6, qprob=0.9)
         lines.append(gen_history(rng, lang, o))
